@@ -352,6 +352,35 @@ C07_ReclaimerWithinFairShare ==
         /\ QCpu(rq, e, FALSE) <= qi.q[rq].fsC + 1
         /\ QMem(rq, e, FALSE) <= qi.q[rq].fsM + 1
 
+\* saturation clause: after the statement no ancestor (or the leaf itself) of the reclaimer's queue is
+\* both above its own fair share and at least as saturated (allocation / fair share) as a sibling
+\* queue from whose subtree the statement really took resources, in a resource the reclaimer or
+\* those victims request. Ratios are compared by cross-multiplication on the recomputed
+\* allocations (milli-GPU, milli-CPU; memory in 32 MB units) - with saturation multiplier m > 1 the
+\* code is stricter than this. The session's float fair shares are logged rounded: when the logged
+\* value is exact (xG / xC = 1) the comparison is exact, otherwise a violation is reported only
+\* when it survives the rounding error (slack).
+StmtPre(s) == D[CHOOSE i \in ReclaimEvicts : D[i].stmt = s].pre
+ReclaimerPods(s) == {D[k].p : k \in {z \in Dec : D[z].stmt = s /\ (BindOK(z) \/ Piped(z)) /\ JobOf(D[z].p) = StmtPre(s)}}
+AsSaturated(aR, fR, aS, fS, slack) ==
+  /\ fR >= 0 /\ fS > 0 /\ aR > fR + slack
+  /\ aR * fS >= aS * fR + slack * (aR + aS + fR + fS + slack)
+SaturationBroken(s, a, x) ==
+  LET e   == LastOfStmt(s)
+      inv == ReclaimerPods(s) \cup TakenFrom(s, x)
+  IN \/ /\ \E p \in inv : GpuMilli(p) > 0
+        /\ AsSaturated(QGpu(a, e, FALSE), qi.q[a].fsG, QGpu(x, e, FALSE), qi.q[x].fsG,
+                       IF qi.q[a].xG = 1 /\ qi.q[x].xG = 1 THEN 0 ELSE 1)
+     \/ /\ \E p \in inv : EffCpu(p) > 0
+        /\ AsSaturated(QCpu(a, e, FALSE), qi.q[a].fsC, QCpu(x, e, FALSE), qi.q[x].fsC,
+                       IF qi.q[a].xC = 1 /\ qi.q[x].xC = 1 THEN 0 ELSE 1)
+     \/ /\ \E p \in inv : P(p).mem > 0
+        /\ AsSaturated(QMem(a, e, FALSE) \div 32, qi.q[a].fsM \div 32, QMem(x, e, FALSE) \div 32, qi.q[x].fsM \div 32, 2)
+C07_Saturation ==
+  (Quiet /\ ~failed /\ qi # <<>>) => \A s \in {D[i].stmt : i \in TakingEvicts} :
+     \A a \in Ancestors(J(StmtPre(s)).queue) : \A x \in Queues :
+        (x # a /\ Q(x).parent = Q(a).parent /\ TakenFrom(s, x) # {} /\ ReclaimerPods(s) # {}) => ~SaturationBroken(s, a, x)
+
 (***************************************************************************)
 (* C05 - work conservation, judged right after the allocate action: no     *)
 (* ready pending job that was not placed fits entirely on idle capacity    *)
